@@ -223,7 +223,7 @@ func TestRaceC10(t *testing.T) {
 		go func(g int) {
 			defer wg.Done()
 			for k := 0; k < n; k++ {
-				ctx, cancel := context.WithCancel(context.Background())
+				ctx, cancel := context.WithTimeout(context.Background(), 20*time.Second) // a body never waits for ever
 				var calls atomic.Int64
 				cleaned := make(chan struct{})
 				err := ring.DoBatchWithOptions(ctx, ring.Write, r, keys, func(in ring.InstanceDesc, idx []int) error {
@@ -236,7 +236,11 @@ func TestRaceC10(t *testing.T) {
 					}
 					return nil
 				}, ring.DoBatchOptions{Cleanup: func() { close(cleaned) }})
-				_ = err
+				if errors.Is(err, context.DeadlineExceeded) {
+					rep.Violate("race:C10:hang", "DoBatchWithOptions did not return within 20 s although every callback returned at once", nil)
+					cancel()
+					return
+				}
 				select {
 				case <-cleaned:
 				case <-time.After(10 * time.Second):
